@@ -347,6 +347,35 @@ func TestC13_Rapid(t *testing.T) {
 	})
 }
 
+// TestC13_Wide registers many transactions at once: every expired one must time out exactly
+// once in a single Collect, every remaining one must be closed exactly once.
+func TestC13_Wide(t *testing.T) {
+	rec := evid.For("C13")
+	c13Notes(rec)
+	for _, n := range []int{1, 50, 99, 100, 101, 128, 250, 600} {
+		for _, split := range []int{0, n / 3, n - 1, n} {
+			var calls []ref.AgentCall
+			for i := 0; i < n; i++ {
+				d := int64(10)
+				if i >= split {
+					d = 30
+				}
+				calls = append(calls, ref.AgentCall{Op: "start", ID: i, T: d})
+			}
+			calls = append(calls, ref.AgentCall{Op: "collect", T: 10}, ref.AgentCall{Op: "collect", T: 11}, ref.AgentCall{Op: "sethandler", H: 1},
+				ref.AgentCall{Op: "collect", T: 11}, ref.AgentCall{Op: "start", ID: 0, T: 50})
+			rec.Case("wide", sigSeq(calls), true, func() any {
+				return map[string]int{"transactions": n, "expired_at_first_effective_collect": split}
+			})
+			if err := runC13(calls); err != nil {
+				pbt.Fail(t, rec, "seq", calls, "%v", err)
+
+				return
+			}
+		}
+	}
+}
+
 func TestC13_Replay(t *testing.T) {
 	rec := evid.For("C13")
 	for _, path := range evid.ReplayFiles() {
